@@ -736,8 +736,9 @@ impl InvertedPartition {
             let token_id = self.map(&token);
             if let Some(token_id) = token_id {
                 token_ids.push((token_id, token));
-            } else if is_phrase_query {
-                // if the token is not found, we can't do phrase query
+            } else if is_phrase_query || (operator == Operator::And && !is_fuzzy) {
+                // if the token is not found, no document of this partition contains
+                // all the terms (phrase query, AND query)
                 return Ok(Vec::new());
             }
         }
